@@ -40,7 +40,8 @@ fn opt_t(t: Option<Timestamp>) -> Value {
 }
 
 fn ts(v: &Value) -> Timestamp {
-    Timestamp::from_unix(dur(&v["v"])).unwrap_or_else(|| tool_error(&format!("instant {} is rejected by from_unix", v["n"])))
+    // (inside `catch`: a rejected in-range instant is a finding about the code, not a failure of the harness)
+    Timestamp::from_unix(dur(&v["v"])).unwrap_or_else(|| panic!("from_unix rejects the in-range instant {}", v["n"]))
 }
 
 fn hash_of<T: Hash>(t: &T) -> u64 {
@@ -190,7 +191,7 @@ fn run(case: &Value, fails: &mut Vec<Value>, extra: &mut [u64; 2]) -> u64 {
             3
         }
         "parts" => {
-            let t = Timestamp::from_unix(dur(&case["instant"])).unwrap_or_else(|| tool_error("parts instant out of range"));
+            let t = Timestamp::from_unix(dur(&case["instant"])).unwrap_or_else(|| panic!("from_unix rejects the in-range instant of the parts {}", case["parts"]));
             let want = parts_of(&case["parts"]);
             match op(|| t.to_parts()) {
                 Ok(p) if p != want => bad("to_parts", json!(format!("{p:?}")), json!(format!("{want:?}"))),
